@@ -548,6 +548,9 @@ def check(ctx):
     ctx.rule("R11", "temperature items read back what was written: for every 16-bit word, both units and both writers, writing the value the item presents for that word hands the same word to the device write (C14's exhaustive float read-back on the reader's / writers' own float programs, borrowed)")
     from .c14 import exact_read_back
     exact_read_back(ctx.borrowed("R11", "C14"), repo, "R6")
+    ctx.rule("R18", "an item writes into ITS structure: the accessor objects a structure builds are bound to that structure - no driver class keeps them (or any per-structure data) in a class-level container that its methods fill through `self`: a table cache keyed by the pair of table classes hands the second connection of a process accessors bound to the FIRST connection's block and callbacks - its writes merge with a stale block and are emitted on a connection that is gone (C10.R8 borrowed)")
+    from .c10 import shared_class_state as _scs2
+    _scs2(ctx.borrowed("R18", "C10"), repo, "R8", only_under="/driver/")
     ctx.rule("R17", "every label is a value, also the odd ones: for every shipped writable Enum item with a label that is, begins or ends with white space (inXM log 2 labels quiet-pause off as \" \"), built by its constructor, writing that label through the public setter and through async_set_value gives the same single write of the label's index - a setter that strips its text input raises ValueError on the blocking path while the awaitable path still writes")
     odd_labels_writable(ctx, repo, T, "R17")
     ctx.rule("R16", "a temperature write depends on ANOTHER item - the units item - and the tables label that item in two ways (a whole byte labelled F, C on most platforms; two bits labelled C, F on inXM): unit item and temperature item built by their constructors on real bytes, for every shipped shape of the units item x both units x nine words across the range, both writers hand the device the word that reads back as the value written - a writer that tells Celsius by the raw index instead of the label converts with the other unit's formula on the eight inXM tables (C14.R8 borrowed)")
